@@ -379,6 +379,22 @@ func cmdCheck(args []string) int {
 				inconclusive = append(inconclusive, fmt.Sprintf("%s: native replay failed: %v", h.Name(), err))
 				continue
 			}
+			if v.MapOrder {
+				// the counterexample needs a particular Go map iteration order, which the
+				// runtime picks at random: repeat the native run until it is observed
+				for try := 0; try < 80; try++ {
+					if ok, _ := res.matches(in.Expect); ok {
+						break
+					}
+					if res, err = nb.run(in); err != nil {
+						break
+					}
+				}
+				if err != nil {
+					inconclusive = append(inconclusive, fmt.Sprintf("%s: native replay failed: %v", h.Name(), err))
+					continue
+				}
+			}
 			if ok, why := res.matches(in.Expect); ok {
 				nviol++
 				violationLines = append(violationLines, fmt.Sprintf("VIOLATION property=%s replay=%s", *prop, path))
